@@ -109,8 +109,15 @@ class Library:
         self.cols = {k: np.array(phys[k], dtype="f8") for k in NONLIN}
         # recognisable, pairwise distinct, not monotone in the row number
         self.lnp = np.array([((j * 7919) % 10007) + 0.25 + j * 1e-3 for j in range(N)], dtype="f8")
+        self.lnp_unit = None
         if with_ln_prior:
             samples["ln_prior"] = self.lnp.copy()
+            if self.foreign and rng.random() < 0.5:
+                # a user-attached ln_prior that carries a scaled dimensionless unit (what e.g. -0.5*((P - 40 d)/(0.1 yr))**2 is:
+                # astropy never reduces d2/yr2 by itself); the scale is a power of two, so the stored number is exact
+                import astropy.units as u
+                samples["ln_prior"] = (self.lnp / 1024.0) * u.Unit(1024 * u.one)
+                self.lnp_unit = "1024"
         self.samples = samples
         self.has_lnp = with_ln_prior
         self.row_of = {core.bits(p): j for j, p in enumerate(self.cols["P"])}
